@@ -46,6 +46,7 @@ type Tape struct {
 	replay bool
 	state  uint64
 	marks  []int // tape positions at operation boundaries (generation and replay)
+	forced []uint32
 	// Trace, when non-nil, receives one line per choice ("label n -> v").
 	// It never influences execution.
 	Trace func(label string, n, v int)
@@ -54,6 +55,15 @@ type Tape struct {
 // New returns a tape in generation mode.
 func New(seed uint64) *Tape {
 	return &Tape{state: seed}
+}
+
+// NewWithPrefix returns a tape in generation mode whose first choices are
+// forced to the given values (they are recorded like drawn ones, so the
+// recorded tape replays the run without knowing about the prefix).  It is how
+// a check enumerates one dimension exhaustively (for example fault vectors)
+// while the rest of the run is still drawn from the PRNG.
+func NewWithPrefix(seed uint64, prefix []uint32) *Tape {
+	return &Tape{state: seed, forced: append([]uint32{}, prefix...)}
 }
 
 // Replay returns a tape that replays the recorded values.
@@ -101,6 +111,9 @@ func (t *Tape) raw() uint32 {
 		return 0
 	}
 	v := t.next32()
+	if t.pos < len(t.forced) {
+		v = t.forced[t.pos]
+	}
 	t.rec = append(t.rec, v)
 	t.pos++
 	return v
